@@ -17,6 +17,7 @@ mod c06;
 mod c07;
 #[cfg(feature = "std")]
 mod c13;
+mod c19;
 mod linkfmt;
 mod observe;
 
@@ -36,6 +37,7 @@ fn table() -> Vec<(&'static str, CheckFn)> {
     t.push(("C14", observe::run_c14));
     t.push(("C15", observe::run_c15));
     t.push(("C16", linkfmt::run_c16));
+    t.push(("C19", c19::run));
     t.push(("C17", linkfmt::run_c17));
     t.push(("C18", linkfmt::run_c18));
     t
